@@ -121,3 +121,21 @@ json.dump(sorted(ded), open(os.path.join(_here, "sa", "ref_dedicated.json"), "w"
 import shutil as _sh
 _sh.rmtree(_ev, ignore_errors=True)
 print(len(ded), "function paths read by dedicated rules")
+
+# values of the constants rustc can evaluate
+from sa.rules import data as _data
+refc = {}
+for cfg, prog in facts.load_many(list(facts.CONFIGS)).items():
+    for path, c in prog.consts.items():
+        if c.get("generic") or path.endswith("::_") or "::_::" in path:
+            continue
+        v = _data._const_value(c)
+        if v is None:
+            continue
+        if path in refc and refc[path] != v:
+            refc[path] = None   # configuration dependent: not recorded
+        elif path not in refc:
+            refc[path] = v
+refc = {k: v for k, v in refc.items() if v is not None}
+json.dump(refc, open(os.path.join(os.path.dirname(os.path.abspath(__file__)), "sa", "ref_consts.json"), "w"), indent=0, sort_keys=True)
+print(len(refc), "constant values")
